@@ -1,6 +1,6 @@
 Require Extraction.
 Require Import ExtrOcamlBasic.
-From Zix Require Import HashSpec HashModel.
-Separate Extraction HashModel.step HashModel.roles_run HashModel.find HashModel.hash_new HashModel.roles_okb HashModel.live_recs
+From Zix Require Import HashSpec HashModel FaultSpec AllocModel HashAllocModel.
+Separate Extraction HashAllocModel.astep HashAllocModel.anew HashAllocModel.afree AllocModel.ast0 HashModel.step HashModel.roles_run HashModel.find HashModel.hash_new HashModel.roles_okb HashModel.live_recs
   HashModel.hf_const HashModel.hf_id HashModel.hf_mod4 HashModel.hf_mult HashModel.hf_special
   HashSpec.spec_find HashSpec.spec_insert HashSpec.spec_remove HashSpec.spec_size.
